@@ -1,7 +1,161 @@
 package mon
 
-import "olverif/internal/hist"
+import (
+	"encoding/json"
+	"math/big"
+	"strings"
 
-func wrappedAllowance(blk *hist.Block) Allowance { return nil }
+	"github.com/ethereum/go-ethereum/core/types"
+	"github.com/ethereum/go-ethereum/rlp"
 
-func guiltyIn(blk *hist.Block) []string { return nil }
+	"olverif/internal/hist"
+)
+
+// Tracker is the persisted form of an ethereum tracker.
+type Tracker struct {
+	Type          int      `json:"Type"`
+	State         int      `json:"State"`
+	TrackerName   string   `json:"TrackerName"`
+	SignedETHTx   []byte   `json:"SignedETHTx"`
+	Witnesses     []string `json:"Witnesses"`
+	ProcessOwner  string   `json:"ProcessOwner"`
+	FinalityVotes []byte   `json:"FinalityVotes"`
+	Store         string   `json:"-"`
+}
+
+const (
+	TrkReleased = 5
+	TrkFailed   = 6
+)
+
+// Trackers decodes every tracker record of a state, keyed by store+name.
+func Trackers(s hist.State) map[string]*Tracker {
+	out := map[string]*Tracker{}
+	for k, v := range s {
+		for _, p := range []string{"etht_", "ethfailed_", "ethsuccess_"} {
+			if strings.HasPrefix(k, p) {
+				t := &Tracker{}
+				if json.Unmarshal(v, t) == nil {
+					t.Store = strings.TrimSuffix(p, "_")
+					out[t.Store+"/"+t.TrackerName] = t
+				}
+			}
+		}
+	}
+	return out
+}
+
+// TrackerAmount parses the external transaction a tracker stores and returns
+// the amount it moves and the wrapped currency.
+func TrackerAmount(t *Tracker) (*big.Int, string) {
+	tx := &types.Transaction{}
+	if err := rlp.DecodeBytes(t.SignedETHTx, tx); err != nil {
+		return new(big.Int), ""
+	}
+	data := tx.Data()
+	word := func(i int) *big.Int {
+		if len(data) >= 4+32*(i+1) {
+			return new(big.Int).SetBytes(data[4+32*i : 4+32*(i+1)])
+		}
+		return new(big.Int)
+	}
+	switch t.Type {
+	case 1:
+		return tx.Value(), "ETH"
+	case 2:
+		return word(0), "ETH"
+	case 3:
+		return word(1), "TTC"
+	case 4:
+		return word(0), "TTC"
+	}
+	return new(big.Int), ""
+}
+
+func isReleased(m map[string]*Tracker, name string) bool {
+	if _, ok := m["ethsuccess/"+name]; ok {
+		return true
+	}
+	if t, ok := m["etht/"+name]; ok && t.State == TrkReleased {
+		return true
+	}
+	return false
+}
+
+func isFailed(m map[string]*Tracker, name string) bool {
+	if _, ok := m["ethfailed/"+name]; ok {
+		return true
+	}
+	if t, ok := m["etht/"+name]; ok && t.State == TrkFailed {
+		return true
+	}
+	return false
+}
+
+// wrappedAllowance: lock trackers that became Released and redeem trackers
+// that became Failed in this block may create / restore wrapped value.
+func wrappedAllowance(blk *hist.Block) Allowance {
+	prev, cur := Trackers(blk.Prev), Trackers(blk.Cur)
+	al := Allowance{}
+	seen := map[string]bool{}
+	for _, t := range cur {
+		name := t.TrackerName
+		if seen[name] {
+			continue
+		}
+		seen[name] = true
+		src := t
+		if len(src.SignedETHTx) == 0 {
+			// a cleaned-up tracker keeps only type, state and name: the stored
+			// external transaction is in the previous block's ongoing record
+			if pt, ok := prev["etht/"+name]; ok {
+				src = pt
+			} else if ct, ok := cur["etht/"+name]; ok {
+				src = ct
+			}
+		}
+		amt, c := TrackerAmount(src)
+		if c == "" {
+			continue
+		}
+		grant := false
+		if (t.Type == 1 || t.Type == 3) && isReleased(cur, name) && !isReleased(prev, name) {
+			grant = true
+		}
+		if (t.Type == 2 || t.Type == 4) && isFailed(cur, name) && !isFailed(prev, name) {
+			grant = true
+		}
+		if grant {
+			if al[c] == nil {
+				al[c] = new(big.Int)
+			}
+			al[c].Add(al[c], amt)
+		}
+	}
+	return al
+}
+
+// guiltyIn: validators whose freeze record with status "byzantine fault" was
+// written with this block's height (a guilty verdict recorded in this block).
+func guiltyIn(blk *hist.Block) []string {
+	var out []string
+	for k, v := range blk.Cur {
+		if !strings.HasPrefix(k, "es__ssvk_") {
+			continue
+		}
+		var rec struct {
+			Address      string `json:"Address"`
+			Status       int    `json:"Status"`
+			FrozenHeight int64  `json:"FrozenHeight"`
+		}
+		if json.Unmarshal(v, &rec) != nil {
+			continue
+		}
+		if rec.Status == 2 && rec.FrozenHeight == blk.H {
+			if pv, ok := blk.Prev[k]; !ok || string(pv) != string(v) {
+				out = append(out, rec.Address)
+			}
+		}
+	}
+	return out
+}
